@@ -6,6 +6,7 @@ package main
 import (
 	"fmt"
 	"math"
+	"reflect"
 	"strconv"
 	"strings"
 
@@ -187,7 +188,33 @@ func tOptNat(n int) *T {
 	return Ctor("Some", Nat(n))
 }
 
-func tSpec(o *getoptions.VerifOption, sfn int) *T {
+// the suggestion function family is identified through the code pointer of the function found in
+// the dumped object (the functions of the family capture nothing)
+func valueFnID(o *getoptions.VerifOption) int {
+	if o.SuggestedValuesFn == nil {
+		return 0
+	}
+	p := reflect.ValueOf(o.SuggestedValuesFn).Pointer()
+	for id := 1; id <= 4; id++ {
+		if reflect.ValueOf(valueFn(id)).Pointer() == p {
+			return id
+		}
+	}
+	return 99
+}
+
+func argFnID(fn getoptions.ArgCompletionsFn) int {
+	p := reflect.ValueOf(fn).Pointer()
+	for id := 1; id <= 4; id++ {
+		if reflect.ValueOf(argFn(id)).Pointer() == p {
+			return id
+		}
+	}
+	return 99
+}
+
+func tSpec(o *getoptions.VerifOption, sfnIgnored int) *T {
+	sfn := valueFnID(o)
 	return Ctor("mkSpec",
 		Str(o.Name), Ctor(kindNames[o.Kind]), Nat(o.MinArgs), Nat(o.MaxArgs),
 		Strs(o.ValidValues), Str(o.ValidValuesQ), Bool(o.IsRequired), Str(o.IsRequiredErr),
@@ -210,8 +237,8 @@ func tNode(n *getoptions.VerifNode, path string, meta *nodeMeta) *T {
 		fn = Ctor("FnHelp")
 	}
 	sf := []*T{}
-	for _, id := range meta.sfns[path] {
-		sf = append(sf, Nat(id))
+	for _, fn := range n.SuggestionFns {
+		sf = append(sf, Nat(argFnID(fn)))
 	}
 	syn := []*T{}
 	for _, a := range n.SynopsisArgs {
